@@ -8,6 +8,7 @@ import (
 	"fmt"
 	"strings"
 	"time"
+	"unsafe"
 
 	"github.com/cloudwego/gopkg/bufiox"
 	"github.com/cloudwego/gopkg/protocol/thrift"
@@ -43,6 +44,9 @@ func bigCounts(c *Ctx, max int) []int {
 		if n <= max {
 			out = append(out, n)
 		}
+	}
+	if max >= 1<<21 { // containers beyond a million slots
+		out = append(out, 1<<19-1, 1<<19, 1<<19+1, 1<<20-1, 1<<20, 1<<20+1, 1<<21+3)
 	}
 	return out
 }
@@ -320,6 +324,9 @@ func bigUnknownMonitor(c *Ctx) {
 		if what == "struct" || what == "fields" {
 			max = 32767
 		}
+		if what == "map" || what == "list" {
+			max = 1<<21 + 3
+		}
 		for _, n := range bigCounts(c, max) {
 			bigUnknownOne(c, BigCase{What: what, N: n})
 			k++
@@ -391,9 +398,61 @@ func bigDupHeaderOne(c *Ctx, fam string, bc BigCase) {
 	}
 }
 
+// discardWriter: a foreign bufiox.Writer that counts and drops what it is given (a 4 GiB value need not be copied)
+type discardWriter struct{ n int }
+
+func (d *discardWriter) Malloc(n int) ([]byte, error)      { d.n += n; return make([]byte, n), nil }
+func (d *discardWriter) WriteBinary(b []byte) (int, error) { d.n += len(b); return len(b), nil }
+func (d *discardWriter) WrittenLen() int                   { return d.n }
+func (d *discardWriter) Flush() error                      { return nil }
+
+// giantHeaderValues: keys / values / tokens of 64 KiB .. beyond 4 GiB cannot be encoded (2-byte lengths, 64 KiB header):
+// the encoder has to say so, whatever the size (Go monitor; the buffer is mapped lazily and never touched)
+func giantHeaderValues(c *Ctx, fam string) {
+	var buf []byte
+	func() {
+		defer func() { recover() }()
+		buf = make([]byte, 1<<33+16)
+	}()
+	if buf == nil {
+		c.Assume("giant header values skipped: the address space could not be reserved")
+		return
+	}
+	for _, n := range []int{65536, 70000, 1 << 20, 1 << 31, 1<<32 - 30, 1 << 32, 1<<32 + 5, 1<<32 + 65000, 1<<32 + 70000, 1<<33 + 7} {
+		s := unsafe.String(&buf[0], n)
+		for _, where := range []string{"intvalue", "strkey", "strvalue", "acl"} {
+			p := ttheader.EncodeParam{SeqID: 5}
+			switch where {
+			case "intvalue":
+				p.IntInfo = map[uint16]string{1: s}
+			case "strkey":
+				p.StrInfo = map[string]string{s: "v"}
+			case "strvalue":
+				p.StrInfo = map[string]string{"k": s}
+			default:
+				p.StrInfo = map[string]string{ttheader.GDPRToken: s}
+			}
+			bad := guarded(func() string {
+				w := &discardWriter{}
+				if _, err := ttheader.Encode(context.Background(), p, w); err == nil {
+					return fmt.Sprintf("Encode accepted a %s of %d bytes (%d bytes written): no error, and no frame that could decode back", where, n, w.n)
+				}
+				return ""
+			})
+			c.AddEvals(1)
+			if bad != "" {
+				c.GoViolation(fam, "tth/giant-"+where, BigCase{What: "giant-" + where, N: n}, bad)
+			}
+		}
+	}
+}
+
 func bigHeaderMonitor(c *Ctx, fam string) {
 	t0 := time.Now()
 	k := 0
+	if fam == "big-C06" {
+		giantHeaderValues(c, fam)
+	}
 	for _, what := range []string{"dupstr", "dupint"} {
 		ns := append(bigCounts(c, 16380), 9999, 13106, 13107, 13108, 13109, 16000, 16379, 16380)
 		for _, n := range ns {
@@ -428,7 +487,9 @@ func init() {
 		goReplays[fam] = func(c *Ctx, raw json.RawMessage) {
 			var bc BigCase
 			if json.Unmarshal(raw, &bc) == nil {
-				if strings.HasPrefix(bc.What, "dup") {
+				if strings.HasPrefix(bc.What, "giant-") {
+					giantHeaderValues(c, fam)
+				} else if strings.HasPrefix(bc.What, "dup") {
 					bigDupHeaderOne(c, fam, bc)
 				} else {
 					bigHeaderOne(c, fam, bc)
